@@ -8,7 +8,7 @@
 (* rest of the trace is still examined.                                    *)
 (***************************************************************************)
 EXTENDS BigNat, TLC, Json, IOUtils, Sequences,
-        JC02, JC03, JC04, JC05, JC06, JC07, JC08, JC09, JC10, JC11, JC12, JC13, JC14, JC15, JC16, JC17, JC18, JC19, JC20
+        JC01, JC02, JC03, JC04, JC05, JC06, JC07, JC08, JC09, JC10, JC11, JC12, JC13, JC14, JC15, JC16, JC17, JC18, JC19, JC20
 
 Rec == ndJsonDeserialize(IOEnv.TRACE)
 
@@ -17,7 +17,8 @@ VARIABLES l,        \* position in the trace
           nbad      \* number of rejected events so far
 
 Judge(e, rg) ==
-  CASE e.p = "C02" -> JudgeC02(e)
+  CASE e.p = "C01" -> JudgeC01(e, rg)
+    [] e.p = "C02" -> JudgeC02(e)
     [] e.p = "C03" -> JudgeC03(e, rg)
     [] e.p = "C04" -> JudgeC04(e, rg)
     [] e.p = "C05" -> JudgeC05(e, rg)
@@ -43,7 +44,10 @@ Judge(e, rg) ==
 (* an event with "reset" = 1 starts a new history.                          *)
 NextRegs(e, rg) ==
   LET base == IF "reset" \in DOMAIN e THEN <<>> ELSE rg
-  IN IF e.p = "C08" THEN GhostC08(e, base) ELSE base
+  IN CASE FALSE -> base
+       [] e.p = "C08" -> GhostC08(e, base)
+       [] e.p = "C01" -> GhostC01(e, base)
+       [] OTHER -> base
 
 Init == l = 1 /\ regs = <<>> /\ nbad = 0
 
